@@ -10,8 +10,10 @@ import (
 	"fmt"
 	"os"
 	"path/filepath"
+	"runtime/debug"
 	"sort"
 	"strconv"
+	"strings"
 	"sync"
 	"testing"
 
@@ -204,10 +206,17 @@ func register[C any](sub string, run func(c C, o *Obs) error) {
 	}
 }
 
+// panicErr marks an error produced by recovering a panic. A panic that unwound
+// through SQLite's C frames leaves its mutexes held, so the process must not
+// touch that connection again: callers record the case and exit.
+type panicErr struct{ msg string }
+
+func (p panicErr) Error() string { return p.msg }
+
 func safeRun[C any](run func(c C, o *Obs) error, c C, o *Obs) (err error) {
 	defer func() {
 		if r := recover(); r != nil {
-			err = fmt.Errorf("PANIC: %v", r)
+			err = panicErr{fmt.Sprintf("PANIC: %v\n%s", r, truncate(string(debug.Stack()), 2500))}
 		}
 	}()
 	return run(c, o)
@@ -239,6 +248,13 @@ func runCase[C any](st *Stats, c C, run func(c C, o *Obs) error) error {
 		st.Extra["last_fail"] = p
 		st.Extra["last_fail_msg"] = truncate(err.Error(), 3000)
 		st.mu.Unlock()
+	}
+	if _, ok := err.(panicErr); ok && outDir != "" {
+		// cannot go on (and cannot shrink) in this process
+		st.addViolation(filepath.Join(outDir, fmt.Sprintf("fail-%s-%d.json", st.Sub, shardNo)), truncate(err.Error(), 3000))
+		st.flush()
+		fmt.Printf("panic in case; process exits\n%s\n", err)
+		os.Exit(3)
 	}
 	return err
 }
@@ -295,7 +311,10 @@ func TestReplay(t *testing.T) {
 		t.Fatalf("no replayer registered for %q", rf.Sub)
 	}
 	if err := run(rf.Case); err != nil {
-		fmt.Printf("REPLAY-FAIL %s\n", truncate(err.Error(), 3000))
+		fmt.Printf("REPLAY-FAIL %s\n", strings.ReplaceAll(truncate(err.Error(), 3000), "\n", " ⏎ "))
+		if _, ok := err.(panicErr); ok {
+			os.Exit(3)
+		}
 		t.Fatalf("replay failed: %v", err)
 	}
 	fmt.Printf("REPLAY-OK\n")
